@@ -45,7 +45,7 @@ def fails(kind, toks, target):
 
 
 DROPPING = ("nolicence", "nocopyright", "nothing", "nolicence.commented", "nothing.commented")
-BROKEN = ("broken-syntax", "broken-unclosed", "broken-filter", "broken-undefined", "broken-div0", "broken-include", "broken-type", "broken-utf8")
+BROKEN = ("broken-syntax", "broken-unclosed", "broken-filter", "broken-undefined", "broken-div0", "broken-include", "broken-type", "broken-utf8", "broken-static-expression")
 
 
 def bounds(tier, seed):
